@@ -4,6 +4,7 @@ package main
 
 import (
 	"fmt"
+	"go/token"
 	"go/types"
 	"os"
 	"strings"
@@ -461,4 +462,54 @@ func (c *Ctx) constFormats(r *Report, rule string, files ...string) int {
 		}
 	}
 	return n
+}
+
+// mustPassOrErr: every path of fn (and the new helpers it calls) to ret passes an instruction matching via, or
+// an edge on which an error value that flows into ret's error result has just been found non-nil (then the
+// return is not a nil-error return).
+func (c *Ctx) mustPassOrErr(fn *ssa.Function, ret *ssa.Return, via InstrPred) ([]string, bool) {
+	flowCtx = c
+	target := map[ssa.Value]bool{}
+	if e := errResult(ret); e != nil {
+		target[e] = true
+		target[c.resolve(e)] = true
+	}
+	reaches := map[ssa.Value]bool{}
+	flowsIn := func(v ssa.Value) bool {
+		if r, ok := reaches[v]; ok {
+			return r
+		}
+		res := false
+		for x := range flowsTo(v) {
+			if target[x] {
+				res = true
+			}
+		}
+		reaches[v] = res
+		return res
+	}
+	q := &PathQ{c: c, Fn: fn, CutIn: via, CutEdge: func(b *ssa.BasicBlock, si int) bool {
+		iff, ok := b.Instrs[len(b.Instrs)-1].(*ssa.If)
+		if !ok {
+			return false
+		}
+		bo, ok := iff.Cond.(*ssa.BinOp)
+		if !ok || !(isConstNil(bo.X) || isConstNil(bo.Y)) {
+			return false
+		}
+		v := bo.X
+		if isConstNil(bo.X) {
+			v = bo.Y
+		}
+		if !isErrorType(v.Type()) {
+			return false
+		}
+		nonNilSucc := 0
+		if bo.Op == token.EQL {
+			nonNilSucc = 1
+		}
+		return si == nonNilSucc && flowsIn(v)
+	}}
+	path, found := q.Reach(entrySite(fn), factUnknown, isInstr(ret))
+	return path, !found
 }
